@@ -353,3 +353,35 @@ func (bi *boolInterp) eval(fr *boolFrame, v ssa.Value, depth int) (bool, error) 
 	}
 	return false, fmt.Errorf("a branch depends on `%s` (%s), which is none of the conditions the rule knows", v.String(), v.Name())
 }
+
+// runFrom walks on from the instruction after `after` (the rest of its block, then the blocks that follow).  The
+// instructions of the first block before `after` are not looked at.
+func (bi *boolInterp) runFrom(fr *boolFrame, after ssa.Instruction, stop map[*ssa.BasicBlock]bool) (boolOutcome, error) {
+	b := after.Block()
+	term := b.Instrs[len(b.Instrs)-1]
+	switch x := term.(type) {
+	case *ssa.If:
+		v, err := bi.eval(fr, x.Cond, 0)
+		if err != nil {
+			return boolOutcome{}, err
+		}
+		next := b.Succs[1]
+		if v {
+			next = b.Succs[0]
+		}
+		fr.prev = b
+		if stop[next] {
+			return boolOutcome{kind: "block", blk: next}, nil
+		}
+		return bi.run(fr, next, stop, 0)
+	case *ssa.Jump:
+		fr.prev = b
+		if stop[b.Succs[0]] {
+			return boolOutcome{kind: "block", blk: b.Succs[0]}, nil
+		}
+		return bi.run(fr, b.Succs[0], stop, 0)
+	case *ssa.Return:
+		return boolOutcome{kind: "return", ret: x}, nil
+	}
+	return boolOutcome{kind: "noreturn"}, nil
+}
